@@ -496,7 +496,9 @@ def count_sweep(
 
             df = pd.DataFrame(list(sweep))
             cols = list(arg_combination)
-            counts[_output_name] = df[cols].groupby(cols).size().to_dict()  # type: ignore[assignment]
+            # An empty sweep has no columns; grouping by a single column gives scalar keys
+            sizes = {} if df.empty else df[cols].groupby(cols).size().to_dict()
+            counts[_output_name] = {k if isinstance(k, tuple) else (k,): n for k, n in sizes.items()}
         else:
             _cnt: dict[tuple[Any, ...], int] = {}
             for combo in sweep:
